@@ -647,6 +647,10 @@ type HEIFOpts struct {
 	ManyItems int
 	// MultiExtent: the coded image item is stored as two extents
 	MultiExtent bool
+	// TiffHdrOff > 0: the Exif item does not carry the usual "Exif\0\0" prefix; its
+	// exif_tiff_header_offset field says TiffHdrOff-1 and that many zero bytes precede the TIFF
+	// header (ISO/IEC 23008-12 A.2.1: the field counts the bytes between it and the header)
+	TiffHdrOff int
 	// IlocLastCut > 0: the item-location box is the last child of meta and its last bytes are
 	// missing (the box, and meta with it, ends that many bytes early - inside its last entry)
 	IlocLastCut int
@@ -716,6 +720,10 @@ func DrawHEIFOpts(l *core.Lane, tiff []byte, surround bool, ho HEIFOpts) *HEIF {
 	iprp := Box("iprp", Box("ipco", fullBox("ispe", 0, 0, be32(4000), be32(3000))), fullBox("ipma", 0, 0, be32(1), be16(1), []byte{1, 0x81}))
 	// Exif item payload: exif_tiff_header_offset(4) = 6, "Exif\0\0", TIFF
 	item := append(be32(6), []byte("Exif\x00\x00")...)
+	if ho.TiffHdrOff > 0 {
+		item = append(be32(uint32(ho.TiffHdrOff-1)), make([]byte, ho.TiffHdrOff-1)...)
+	}
+	tiffRel := len(item)
 	item = append(item, tiff...)
 	imgData := ScreenTIFF(l.Sub().Bytes(32 + l.Intn(400)))
 	// iloc v0: offset_size 4, length_size 4, base_offset_size 0; two items with one extent each
@@ -846,7 +854,7 @@ func DrawHEIFOpts(l *core.Lane, tiff []byte, surround bool, ho HEIFOpts) *HEIF {
 		out = append(out, Box("mdat", none, trail)...)
 		h.Top = append(h.Top, Span{"mdat", s, len(out)})
 	}
-	h.TIFFOff = exifOff + 10
+	h.TIFFOff = exifOff + tiffRel
 	if surround && l.Bool() {
 		out = append(out, ScreenTIFF(l.Sub().Bytes(l.Intn(300)))...)
 	}
